@@ -54,8 +54,8 @@ def build(repo):
                 ensures found ==> at(self.defs_ex@, k as int, i as int, n@) && none_before(self.defs_ex@, k as int, i as int, n@), //@ C08:undef-found-is-first
                     !found ==> i == defs_ex@.len() && none_before(self.defs_ex@, k as int, i as int, n@),
 """)
-    idx = re.findall(r"self\.(defs_ex|defs_ex_ex|regexes)\[(\w+)\]\.remove\((\w+)\)", tail)
-    idx2 = re.findall(r"self\.regex_sets\[(\w+)\]\s*=\s*RegexSet::new\(&self\.defs_ex_ex\[(\w+)\]\)", tail)
+    idx = re.findall(r"self\.(defs_ex|defs_ex_ex|regexes)\[([^\]]+)\]\.remove\(([^)]+)\)", tail)
+    idx2 = re.findall(r"self\.regex_sets\[([^\]]+)\]\s*=\s*RegexSet::new\(&self\.defs_ex_ex\[([^\]]+)\]\)", tail)
     if len(idx) != 3 or len(idx2) != 1:
         raise Undecided("undefine(): expected three `self.<table>[k].remove(i)` statements and one regex_set rebuild, found %d / %d" % (len(idx), len(idx2)))
     checks = []
